@@ -67,7 +67,35 @@ func genC12(t *rapid.T) C12Case {
 	if len(td) > 0 && rapid.IntRange(0, 19).Draw(t, "useTestdata") == 0 {
 		return td[rapid.IntRange(0, len(td)-1).Draw(t, "testdataDir")]
 	}
-	return C12Case{WS: genC05(t).WS, Origin: "generated"}
+	ws := genC05Opt(t, true).WS
+	// a file defining some of the small-pool names as globals (once each), so that `_G.a` written
+	// where a local `a` is visible has a definition to resolve to
+	if rapid.Bool().Draw(t, "gdefs") {
+		var b strings.Builder
+		for _, n := range []string{"a", "b", "c", "d", "e"} {
+			switch rapid.IntRange(0, 3).Draw(t, "gdef-"+n) {
+			case 0:
+				b.WriteString(n + " = 1\n")
+			case 1:
+				b.WriteString("function " + n + " ( p )\n  return p\nend\n")
+			case 2:
+				b.WriteString(n + " = { }\n")
+			}
+		}
+		if b.Len() > 0 {
+			ws.Files = append(ws.Files, WSFile{Path: "gdefs.lua", Text: b.String()})
+		}
+	}
+	if gate("c12-spaced-qualifier") {
+		// known finding C12-F2: `_G . name` written with blanks; the qualifier is rendered glued instead
+		for i := range ws.Files {
+			if strings.Contains(ws.Files[i].Text, "_G . ") {
+				ws.Files[i].Text = strings.ReplaceAll(ws.Files[i].Text, "_G . ", "_G.")
+				excluded()
+			}
+		}
+	}
+	return C12Case{WS: ws, Origin: "generated"}
 }
 
 type hoverResp struct {
@@ -132,6 +160,9 @@ func checkC12(c C12Case, env *Env) *Violation {
 		for n, ds := range b.GlobalDefs {
 			globalDefs[n] += len(ds)
 		}
+		for n, k := range b.GFieldWrites {
+			globalDefs[n] += k
+		}
 	}
 	req := &proto.Request{Cmd: "session", Files: c.WS.protoFiles(), InitOptions: harness.J(harness.Flags(1))}
 	req.Steps = c.WS.openAll()
@@ -150,7 +181,13 @@ func checkC12(c C12Case, env *Env) *Violation {
 			// column defects after tabs / non-ASCII text are C04's known findings
 			continue
 		}
-		for _, o := range inf.bind.Occs {
+		occs := append([]*reflua.Occ{}, inf.bind.Occs...)
+		for _, gf := range inf.bind.GFields {
+			// `_G.name`: a position on the global `name`
+			occs = append(occs, &reflua.Occ{Name: gf, Kind: reflua.ORead})
+			env.Stats.Class("pos-G-qualified")
+		}
+		for _, o := range occs {
 			if o.Name.Off == o.Name.End || dcName(o.Name.Text) || (o.Decl != nil && o.Decl.Kind == reflua.DSelf) {
 				continue
 			}
